@@ -533,20 +533,28 @@ _SNAP = [None]
 
 
 def baseline(name):
-    """Result of the call from the initial heap (fresh pool, nothing called before in this pool)."""
+    """Result of the call from the INITIAL heap: fresh pool, and module-level state restored to what it was before
+    any descriptor ran (otherwise a cache filled by an earlier baseline would silently become the reference)."""
     if name not in _BASE:
+        _ensure_initial_state()
         _BASE[name] = do_call(name, make_pool())
     return _BASE[name]
+
+
+def _ensure_initial_state():
+    if _SNAP[0] is None:
+        if _BASE:
+            raise core.HarnessError("module state snapshot requested after calls were made")
+        _SNAP[0] = _snapshot_globals()
+        _G0[0] = globals_digest()
+    elif globals_digest() != _G0[0]:
+        _restore_globals(_SNAP[0])
 
 
 # ------------------------------------------------------------------------------------------ histories
 def check_history(acc, hist):
     """Run the history on one shared pool; invariant after every step."""
-    if _SNAP[0] is None:
-        _SNAP[0] = _snapshot_globals()
-        _G0[0] = globals_digest()
-    elif globals_digest() != _G0[0]:
-        _restore_globals(_SNAP[0])        # every history starts from the initial module state
+    _ensure_initial_state()               # every history starts from the initial module state
     P = make_pool()
     h0 = heap(P)
     for i, name in enumerate(hist):
